@@ -24,7 +24,6 @@ EXTENDS Integers, Sequences, FiniteSets, TLC, Json
 
 CONSTANTS Keys,      \* key classes offered to UserSet
           MaxLen,
-          Full,      \* TRUE: every combination is offered (simulation); FALSE: the pruned alphabet
           Quiet
 
 NS == {"a", "b", "asub", "run"}       \* gno.land/r/verif/alpha, .../beta, .../alpha/sub, the MsgRun package of the user
@@ -62,7 +61,9 @@ Init == /\ user = [n \in NS |-> [k \in Keys |-> NONE]]
         /\ last = [act |-> "Init"]
         /\ steps = 0 /\ hist = <<>>
 
-Proj(u, m, mt) == [user |-> u, mod |-> m, meta |-> mt]
+\* projection: only the keys that exist (the driver treats every other candidate as absent)
+Proj(u, m, mt) == [user |-> {r \in {[ns |-> n, k |-> k, val |-> u[n][k]] : n \in NS, k \in Keys} : r.val # NONE},
+                   mod |-> m, meta |-> mt]
 
 Log(rec, st) ==
   /\ steps' = steps + 1
@@ -112,20 +113,15 @@ SysSet(caller, mk, v) ==
              /\ Log(rec("ok"), Proj(user, m1, meta))
         ELSE UNCHANGED vars /\ Log(rec("reject"), Proj(user, mod, meta))
 
-\* pruned alphabet for exhaustive edge emission
-Offer(via, ns, kind, k, v) ==
-  \/ Full
-  \/ /\ via \in {"direct", "run"} /\ kind = "String" /\ v = "v1"                     \* every key class
-  \/ /\ via = "direct" /\ ns = "a" /\ k \in {"plain", "colon"}                         \* every kind / value
-  \/ /\ via \in {"cross", "helper"} /\ kind = "String" /\ k \in {"plain", "colon", "otherrealm"} /\ v = "v1"
-OfferSys(caller, mk, v) ==
-  \/ Full
-  \/ caller = "sys"
-  \/ /\ caller # "sys" /\ v = "good1" /\ mk \in {"auth_memo", "vm_deposit"}
-
-Next == \/ \E via \in Vias, ns \in NS, kind \in Kinds, k \in Keys, v \in {"v1", "v2"} :
-             Offer(via, ns, kind, k, v) /\ UserSet(via, ns, kind, k, v)
-        \/ \E c \in Callers, mk \in ModKeys, v \in ModVals : OfferSys(c, mk, v) /\ SysSet(c, mk, v)
+\* Exhaustive exploration uses a pruned alphabet (every key class with one setter, every setter
+\* with two key classes, every route with three key classes; the second caller with two module
+\* keys); simulation (SimNext) draws from the full product.
+Next == \/ \E via \in {"direct", "run"}, ns \in NS, k \in Keys : UserSet(via, ns, "String", k, "v1")
+        \/ \E kind \in Kinds, k \in {"plain", "colon"} \cap Keys, v \in {"v1", "v2"} : UserSet("direct", "a", kind, k, v)
+        \/ \E via \in {"cross", "helper"}, ns \in NS, k \in {"plain", "colon", "otherrealm"} \cap Keys :
+             UserSet(via, ns, "String", k, "v1")
+        \/ \E mk \in ModKeys, v \in ModVals : SysSet("sys", mk, v)
+        \/ \E mk \in {"auth_memo", "vm_deposit"} : SysSet("evil", mk, "good1")
 
 Pick(S) == RandomElement({x \in S : steps >= 0})
 SimNext == \/ UserSet(Pick(Vias), Pick(NS), Pick(Kinds), Pick(Keys), Pick({"v1", "v2"}))
